@@ -98,7 +98,7 @@ inductive Ev
   | commit (client : String) (fate : Fate) (startTS commitTS : Nat) (keys : List Bytes) (ok : Bool) (definiteErr : Bool)
   | rollback (client : String) (fate : Fate) (startTS : Nat) (keys : List Bytes)
   | status (client : String) (fate : Fate) (primary : Bytes) (lockTS callerTS currentTS : Nat) (rollbackIfNotExist : Bool)
-      (answered : Bool) (ttl commitTS : Nat) (isErr : Bool)
+      (answered : Bool) (ttl commitTS : Nat) (isErr : Bool) (action : Nat)
   | resolve (client : String) (fate : Fate) (startTS commitTS : Nat) (infos : List (Nat × Nat))
   | heartbeat (client : String) (fate : Fate) (primary : Bytes) (startTS advise : Nat)
   | lockSeen (client : String) (lockTS ttl : Nat)            -- a KeyIsLocked error delivered to `client`
@@ -163,7 +163,7 @@ def checksOf (m : MState) : Ev → List (Bool × String)
   | .rollback client _fate startTS _keys =>
     let t := m.get startTS client
     [ (!(t.client == client && t.commitPointMaybe), "rule3 rollback sent after a primary commit that may have taken effect") ]
-  | .status client _fate _primary lockTS _callerTS currentTS rollbackIfNotExist _answered _ttl _commitTS _isErr =>
+  | .status client _fate _primary lockTS _callerTS currentTS rollbackIfNotExist _answered _ttl _commitTS _isErr _action =>
     let t := m.get lockTS client
     [ (if currentTS == maxU64 then isGC client || t.ttlSeen == some 0 || t.ttlSeen.isNone else currentTS ≤ m.maxTSO,
         "rule5 current_ts beyond what the resolver's oracle has seen, or max for a live lock outside GC"),
@@ -251,10 +251,13 @@ def applyEv (m : MState) : Ev → MState
       primaryCommitted := if hasPrimary && executedOk then some commitTS else t.primaryCommitted
       committedKeys := if executedOk then t.committedKeys ++ keys else t.committedKeys }
   | .rollback _ _ _ _ => m
-  | .status client _fate _primary lockTS _callerTS _currentTS _rb answered ttl commitTS isErr =>
+  | .status client _fate _primary lockTS _callerTS _currentTS _rb answered ttl commitTS isErr action =>
     let t := m.get lockTS client
     if answered && !isErr then
-      m.upd { t with statusAnswers := (commitTS, ttl == 0 && commitTS == 0) :: t.statusAnswers,
+      -- "rolled back" is what the actions NoAction / TTLExpireRollback / LockNotExistRollback (codes 0, 1, 2) say with ttl 0
+      -- and no commit ts; MinCommitTSPushed carries a ttl; TTLExpirePessimisticRollback (4) and LockNotExistDoNothing (5) only
+      -- say that the pessimistic lock asked about is gone / that nothing is at THIS key — nothing about the transaction
+      m.upd { t with statusAnswers := (commitTS, ttl == 0 && commitTS == 0 && action ≤ 2) :: t.statusAnswers,
                      statusTTLs := (client, ttl) :: t.statusTTLs.filter (·.1 != client) }
     else m
   | .resolve _ _ _ _ _ => m
